@@ -4,6 +4,7 @@ package tally
 
 import (
 	"math"
+	"sync"
 	"time"
 
 	"github.com/uber-go/tally/v4/internal/verifrt"
@@ -79,6 +80,7 @@ type vBucket struct {
 }
 
 type vCachedReporter struct {
+	mu      sync.Mutex // a cached reporter is called from report passes and, for timers, from callers
 	allocs  []vAlloc
 	buckets []vBucket
 	calls   []vCachedCall
@@ -97,6 +99,8 @@ type vCachedBucketHandle struct {
 }
 
 func (r *vCachedReporter) alloc(kind, name string, tags map[string]string, spec Buckets) vCachedHandle {
+	r.mu.Lock()
+	defer r.mu.Unlock()
 	r.allocs = append(r.allocs, vAlloc{kind, name, tags, spec})
 	return vCachedHandle{r, len(r.allocs) - 1}
 }
@@ -113,25 +117,41 @@ func (r *vCachedReporter) AllocateHistogram(name string, tags map[string]string,
 	return r.alloc("histogram", name, tags, b)
 }
 func (r *vCachedReporter) Capabilities() Capabilities { return capabilitiesReportingTagging }
-func (r *vCachedReporter) Flush()                     { r.flushes++ }
+func (r *vCachedReporter) Flush() {
+	r.mu.Lock()
+	r.flushes++
+	r.mu.Unlock()
+}
 
 func (h vCachedHandle) ReportCount(v int64) {
+	h.r.mu.Lock()
 	h.r.calls = append(h.r.calls, vCachedCall{alloc: h.alloc, kind: "counter", i: v})
+	h.r.mu.Unlock()
 }
 func (h vCachedHandle) ReportGauge(v float64) {
+	h.r.mu.Lock()
 	h.r.calls = append(h.r.calls, vCachedCall{alloc: h.alloc, kind: "gauge", f: v})
+	h.r.mu.Unlock()
 }
 func (h vCachedHandle) ReportTimer(d time.Duration) {
+	h.r.mu.Lock()
 	h.r.calls = append(h.r.calls, vCachedCall{alloc: h.alloc, kind: "timer", i: int64(d)})
+	h.r.mu.Unlock()
 }
 func (h vCachedHandle) ValueBucket(lo, hi float64) CachedHistogramBucket {
+	h.r.mu.Lock()
+	defer h.r.mu.Unlock()
 	h.r.buckets = append(h.r.buckets, vBucket{alloc: h.alloc, lo: lo, hi: hi})
 	return vCachedBucketHandle{h.r, len(h.r.buckets) - 1}
 }
 func (h vCachedHandle) DurationBucket(lo, hi time.Duration) CachedHistogramBucket {
+	h.r.mu.Lock()
+	defer h.r.mu.Unlock()
 	h.r.buckets = append(h.r.buckets, vBucket{alloc: h.alloc, isDur: true, dlo: lo, dhi: hi})
 	return vCachedBucketHandle{h.r, len(h.r.buckets) - 1}
 }
 func (b vCachedBucketHandle) ReportSamples(v int64) {
+	b.r.mu.Lock()
+	defer b.r.mu.Unlock()
 	b.r.calls = append(b.r.calls, vCachedCall{alloc: b.r.buckets[b.bucket].alloc, kind: "samples", i: v, bucket: b.bucket})
 }
